@@ -193,4 +193,16 @@ theorem C04_normalize_scale (K : Var → Nat) (f : Factor) (hf : f.WF K) (c : Ra
   rw [this, list_sum_map_mul c (fun i => f.den (asgOf f.scope f.card i))]
   exact mul_div_mul_left _ _ hc
 
+/-- **dividing and multiplying back**: `(phi / psi) * psi` is `phi` wherever `psi` is non-zero and 0 where
+    `psi` is 0 (numpy's 0/0 -> 0 as used by `divide`) - the identity a belief-update message relies on
+    when it replaces a sepset belief -/
+theorem C04_divide_product_cancel (K : Var → Nat) (f g : Factor) (hf : f.WF K) (hg : g.WF K)
+    (hsub : ∀ v ∈ g.scope, v ∈ f.scope) (a : Asg) (ha : Bounded K a) :
+    (product (divide f g) g).den a = if g.den a = 0 then 0 else f.den a := by
+  rw [(C04_den_product K (divide f g) g (wf_divide K f g hf) hg a ha).1,
+      C04_den_divide K f g hf hsub a ha]
+  split
+  · simp
+  · next hne => exact div_mul_cancel₀ _ hne
+
 end PgmVerif
